@@ -58,7 +58,7 @@ fn gen(seed: u64, idx: u64, _tier: Tier) -> Plan {
         _ => 1 + rng.below(64) as i64,
     };
     if mode == Mode::F {
-        s.source = if rng.chance(1, 2) { ConfigSource::File } else { ConfigSource::Env };
+        process_settings(&mut rng, &mut s);
     } else {
         s.log_level = Some(*rng.pick(&[0u8, 0, 4]));
     }
